@@ -162,6 +162,32 @@ S += [
        post_subst=[(r'return \(\*self\);', 'return self;', 'return_this')],
        must_fire={'subst:return_this': 1, 'method:acquire_if_equal': 1, 'method:find': 1, 'self_call:move_to_next_bucket': 1, 'method:get_hash': 1}),
 ]
+# operator++(int), reset, operator==, and the four special member functions (`= default` in the pinned text: member-wise, which for this unit's
+# word-modelled guards is the plain struct copy; a user-provided body is lowered and checked against that contract by run special)
+IT_LOCALS = [(r'\biterator (\w+) = \*this;', r'struct iterator \1 = (*self);', 'iter_copy_this'), (r'\biterator (\w+)\(\*this\);', r'struct iterator \1 = (*self);', 'iter_copy_this'),
+             (r'\biterator (\w+)\(([^;()]*)\);', r'struct iterator \1 = IT_make(\2);', 'iter_local_ctor'),
+             (r'\+\+\(\*this\);|\+\+\*this;|\boperator\+\+\(\);', 'it_inc(self);', 'pre_inc_this'),
+             (r'\bfind_info (\w+)\(([^;]+)\);', r'struct find_info \1 = \2;', 'find_info_copy')]
+PARAM = [(r'\b(rhs|o|that|src|it|x)\b(?=\.|\)|;)', 'other', 'param_name')]
+OTHER = [(r'(?<![\w.>])other\b', '(*other_p)', 'ref:other'), (r'return \(\*self\);', 'return self;', 'return_this')]
+PN = r'\s*(?:other|rhs|o|that|src|it|x)?'
+S += [
+  dict(IT, id='it_postinc', sig=r'iterator operator\+\+\(int\)', c_sig='static struct iterator it_postinc(struct iterator* self)', pre_subst=IT_LOCALS,
+       must_fire={'subst:iter_copy_this': 1, 'subst:pre_inc_this': 1}),
+  dict(IT, id='it_reset', sig=r'void reset\(\)', which=0, c_sig='static void it_reset(struct iterator* self)', must_fire={'method:reset': 2, 'member:bucket': 1}),
+  dict(IT, id='it_eq', sig=r'bool operator==\(const iterator& other\) const', c_sig='static _Bool it_eq(const struct iterator* self, const struct iterator* other_p)',
+       post_subst=OTHER, must_fire={'method:get': 2}),
+  dict(IT, id='it_ne', sig=r'bool operator!=\(const iterator& other\) const', c_sig='static _Bool it_ne(const struct iterator* self, const struct iterator* other_p)',
+       pre_subst=[(r'\(\*this == other\)', 'it_eq(self, other_p)', 'eq_call')], must_fire={'subst:eq_call': 1}),
+  dict(IT, id='it_copy_assign', sig=r'iterator& operator=\(const iterator&' + PN + r'\)', defaultable=True,
+       c_sig='static struct iterator* it_copy_assign(struct iterator* self, const struct iterator* other_p)', pre_subst=PARAM + IT_LOCALS, post_subst=OTHER),
+  dict(IT, id='it_move_assign', sig=r'iterator& operator=\(iterator&&' + PN + r'\)', defaultable=True,
+       c_sig='static struct iterator* it_move_assign(struct iterator* self, struct iterator* other_p)', pre_subst=PARAM + IT_LOCALS, post_subst=OTHER),
+  dict(IT, id='it_copy_ctor', sig=r'(?<![\w~])iterator\(const iterator&' + PN + r'\)', defaultable=True, ctor=True,
+       c_sig='static void it_copy_ctor(struct iterator* self, const struct iterator* other_p)', pre_subst=PARAM, post_subst=OTHER),
+  dict(IT, id='it_move_ctor', sig=r'(?<![\w~])iterator\(iterator&&' + PN + r'\)', defaultable=True, ctor=True,
+       c_sig='static void it_move_ctor(struct iterator* self, struct iterator* other_p)', pre_subst=PARAM, post_subst=OTHER),
+]
 def UW(L, NB):
   return ['hmm_find.0:2', 'hmm_find.1:1', 'hmm_find.2:1', 'hmm_find.3:1', 'hmm_find.4:%d' % (L + 1), 'hmm_find.5:%d' % (L + 1),
           'hmm_emplace_or_get.0:1', 'hmm_do_get_or_emplace_lazy.0:1', 'hmm_erase_key.0:1', 'hmm_erase_it.0:1', 'it_move_to_next_bucket.0:%d' % max(NB, 1), 'it_inc.0:1']
@@ -176,7 +202,7 @@ UNIT['runs'] += [
   dict(id='map_to_bucket_b1', entry='h_map_to_bucket', cls='unbounded', defs={'NB': 1}),
   dict(id='map_to_bucket_b2', entry='h_map_to_bucket', cls='unbounded', defs={'NB': 2}),
 ]
-CALLERS = ('h_lookup', 'h_insert', 'h_erase_key', 'h_inc', 'h_erase_it', 'h_begin')
+CALLERS = ('h_lookup', 'h_insert', 'h_erase_key', 'h_inc', 'h_erase_it', 'h_begin', 'h_postinc')
 def FC(e, NB, L, memo, tiers):
   r = RUN(e, NB, L, memo, tiers); r['defs']['XV_FIND_CONTRACT'] = 1; r['id'] += '_fc'
   r['note'] = 'internal find replaced by its executable contract (proved equivalent to the real text by run find_b%d_l%d_m%d); ' % (NB, L, memo) + r['note']
@@ -204,7 +230,12 @@ for e, memo in (('h_find_int', 0), ('h_find_int', 1), ('h_insert_int', 0), ('h_i
   UNIT['runs'].append(dict(id='%s_b2_m%d' % (e[2:], memo), entry=e, mode='INT', cls='shape-complete', defs={'NB': 2, 'L': 2, 'XV_MEMO': memo, 'XV_ENV_ARBITRARY': 1},
                            unwindset=['it_move_to_next_bucket.0:2'],
                            note='INT: every shared cell may change before every atomic step (rely: marked next fields are frozen, the private new node is untouched); retry loops cut by invariants; monitors check every CAS / reclaim; pool of L+3 nodes'))
+UNIT['runs'] += [dict(id='special_b2_l3_m%d' % memo, entry='h_special', cls='shape-complete', defs={'NB': 2, 'L': 3, 'XV_MEMO': memo, 'XV_FIND_CONTRACT': 1}, unwindset=UW(3, 2),
+                      note='special member functions, reset, operator== / != on any two iterator positions') for memo in (0,)]
 UNIT['obligations'].update({
+  'hmm.iter.postinc.copy': dict(deciding=True, text='operator++(int) returns the complete old position (map, bucket, prev, cur and the save guard for the predecessor that prev points into) and advances *this exactly as operator++ does'),
+  'hmm.iter.special.memberwise': dict(deciding=True, text='copy/move construction and assignment give the target exactly the source position: map, bucket, prev, cur, save; the source of a copy is unchanged; self-assignment changes nothing'),
+  'hmm.iter.reset.releases': dict(deciding=True, text='reset() makes the iterator equal to end() (bucket = num_buckets, no guards, prev null); operator== / != compare the current nodes'),
   'hmm.find.commit': dict(deciding=True, text='[INT] find: its unlink CAS uses the cell and value validated by the latest acquire_if_equal and the successor frozen by the mark, reclaim only after that CAS succeeded; on return cur is validated, unmarked, was still linked from prev when compared, result = key equality on it'),
   'hmm.insert.commit': dict(deciding=True, text='[INT] insertion: the linking CAS is on the cell/value find validated, installs the private initialised node whose next is that value; true iff this CAS succeeded; otherwise nothing published and the node freed'),
   'hmm.erase.commit': dict(deciding=True, text='[INT] erase: marking CAS on cur->next from the unmarked value read to the same value with mark; true only after it succeeded; unlink CAS on the validated prev from cur to the frozen successor; retire iff that CAS succeeded, else find is re-run'),
